@@ -20,7 +20,7 @@ RULE = (
     "is_frozen is False before, True after freeze()/on subhypergraph results, False on copies; a copy of a frozen network "
     "equals it and accepts the mutation. non-trivial = phase 1 observed a structural change for the pair"
 )
-BUDGET = {"quick": 3000, "thorough": 100000}
+BUDGET = {"quick": 6000, "thorough": 120000}
 ASSUMPTIONS = [
     "pairs that are no-ops on the unfrozen network (update() with nothing to add, a merge without duplicates, ...) are not required to raise",
     "attribute setters are not structural and are not required to raise on a frozen network",
